@@ -80,6 +80,10 @@ def dump(path):
                 orphans.append(["isotherm_data", iso_id, typ])
         for table in ("adsorbate_properties_type", "material_properties_type", "isotherm_type"):
             out["types"][table] = sorted(r[0] for r in con.execute("SELECT type FROM %s" % table))
+        # every field of the property types the harness creates itself
+        out["type_rows"] = {}
+        for table in ("adsorbate_properties_type", "material_properties_type"):
+            out["type_rows"][table] = {r[0]: [r[1], r[2]] for r in con.execute("SELECT type, unit, description FROM %s WHERE type LIKE 'verif-%%'" % table)}
         try:
             out["types"]["isotherm_properties_type"] = sorted(r[0] for r in con.execute("SELECT type FROM isotherm_properties_type"))
         except sqlite3.Error:
@@ -124,6 +128,8 @@ def diff_dump(a, b, limit=8):
     for t in a["types"]:
         if a["types"].get(t) != b["types"].get(t):
             out.append("types %s differ: %s" % (t, sorted(set(a["types"].get(t, [])) ^ set(b["types"].get(t, [])))[:6]))
+    if a.get("type_rows") != b.get("type_rows"):
+        out.append("property type fields differ: %s | %s" % (json.dumps(a.get("type_rows"))[:200], json.dumps(b.get("type_rows"))[:200]))
     if a.get("orphans") != b.get("orphans"):
         out.append("orphan rows differ: %s | %s" % (a.get("orphans")[:3], b.get("orphans")[:3]))
     return out
